@@ -201,6 +201,7 @@ def job_inner(j):
     fpops.CTX.mode = hc.get('mode', 'B')
     fpops.CTX.pending = []
     fpops.CTX.assumptions = set()
+    fpops.CTX.range_checks = []
     opts = dict(hc.get('opts', {}))
     opts['merge'] = list(hc.get('merge', [])) + ([] if hc.get('no_default_merge') else DEFAULT_MERGE)
     ex = symex.Exec(PROG, params=hc.get('params', {}), presets=j['presets'], opts=opts)
@@ -282,7 +283,37 @@ def job_inner(j):
                     reproduced = True  # decided by the executor's own monitor
                 if reproduced:
                     confirmed[ckey] = True
-            if not reproduced:
+            if not reproduced and ob.kind == 'range' and not rec.get('combined'):
+                # an overflow witness whose replay happens to pass: look for a witness where a
+                # second operation on the same path condition overflows as well (two cooperating
+                # overflows are what turns a comparison of two products around)
+                rec['combined'] = True
+                sibs = [o for o in res.obligations if o.kind == 'range' and o is not ob and len(o.pc) == len(ob.pc)
+                        and all(a.eq(b) for a, b in zip(o.pc, ob.pc))]
+                found = False
+                for sib in sibs[:6]:
+                    r2 = solve.solve(list(ob.pc) + [ob.neg], sib.neg, ob.nondet, inproc_ms=inproc_ms, ext_s=min(ext_s, 30),
+                                     solvers=hc.get('solvers'), workdir=WORK)
+                    nsolve += 1
+                    tsolve += r2['time']
+                    if r2['verdict'] != 'sat':
+                        continue
+                    vals2 = dict(r2['values'])
+                    for k, (kind, bits, term) in ob.nondet.items():
+                        vals2.setdefault(k, 0)
+                    case2 = values_to_case(short, vals2, ob.choices, hc.get('params', {}), j['presets'])
+                    nat2, out2 = run_native(pkgdir, [case2], WORK, 'cx')
+                    if nat2[0] is not None and nat2[0][0] in ('fail', 'panic'):
+                        rec['case'] = case2
+                        rec['native'] = nat2[0][:2]
+                        nat = nat2
+                        reproduced = True
+                        found = True
+                        break
+                if not found:
+                    rec['verdict'] = 'spurious'
+                    break
+            elif not reproduced:
                 rec['verdict'] = 'spurious'
                 break
             if hit is None:
